@@ -508,6 +508,8 @@ func runC20(c *Ctx, r *Report) {
 			r.Undecided("C20.R6: only %d returns of word lists found outside AllBytes (PrefixAll, All expected)", nw)
 		}
 	}
+	r.Rule("C20.R10", "Prefix answers nil only for a missing child: every `return nil` of Trie.Prefix is under a nil test of a node or a condition that means `no children` (nil receiver, leaf flag, min > max)")
+	c.checkPrefixGivesUpOnlyOnMissingChild(r, "C20.R10", minIdx, maxIdx)
 	// R7: the completion callback asks the trie about exactly the text before the cursor
 	{
 		prefixAll := c.Fn("trie", "Trie.PrefixAll")
@@ -775,4 +777,46 @@ func (c *Ctx) completionCallback() (*ssa.Function, *ssa.Parameter, *ssa.Paramete
 		return fn, line, pos
 	}
 	return nil, nil, nil
+}
+
+// checkPrefixGivesUpOnlyOnMissingChild: rule C20.R10.
+//
+// Prefix walks the word byte by byte; it may answer "nothing here" (nil) only where the child for the current
+// byte is missing (a nil test of a node), or under a condition that means the node has no children at all (nil
+// receiver, the leaf flag of the shared end marker, min > max). Any other shortcut (max == 0: a node whose only
+// child is byte 0 has that too) hides words that Insert stored.
+func (c *Ctx) checkPrefixGivesUpOnlyOnMissingChild(r *Report, rule string, minIdx, maxIdx int) {
+	trieT := c.TypeNamed("trie", "Trie")
+	fn := c.SSAFn(c.Fn("trie", "Trie.Prefix"))
+	leafIdx := fieldIndex(trieT, "leaf")
+	n := 0
+	eachInstr(fn, func(in ssa.Instruction) {
+		ret, ok := in.(*ssa.Return)
+		if !ok || len(ret.Results) != 1 || !isNilConst(retVal(ret, 0)) {
+			return
+		}
+		n++
+		good := false
+		var seen []string
+		for _, cc := range controlling(ret.Block()) {
+			if bin, ok := cc.Cond.(*ssa.BinOp); ok && (isNilConst(bin.X) || isNilConst(bin.Y)) {
+				if (bin.Op == token.EQL && cc.Edge == 0) || (bin.Op == token.NEQ && cc.Edge == 1) {
+					good = true
+				}
+			}
+			if c.noChildrenCond(cc, fn, minIdx, maxIdx, leafIdx) {
+				good = true
+			}
+			seen = append(seen, cc.Cond.String())
+		}
+		desc := "Prefix answers nil only for a missing child"
+		if n > 1 {
+			desc += " #" + itoa(n)
+		}
+		r.Check(good, rule, ssaFuncName(fn), desc, c.Pos(instrPos(ret)),
+			fmt.Sprintf("Prefix returns nil under a condition that is neither a nil child nor `no children` (conditions: %v): a node whose only child is byte 0 has max == 0 too, so Contains and the prefix query lose words that were inserted", seen))
+	})
+	if n == 0 {
+		r.OkWhy(rule, ssaFuncName(fn), "Prefix never answers nil by itself", c.Pos(fn.Pos()), "the walk ends on the node reached (nil when a child is missing)")
+	}
 }
